@@ -64,7 +64,8 @@ def message(seed, name, peer, idx):
 
 
 class PeerSock:
-    def __init__(self, stream, thread_getter):
+    def __init__(self, stream, thread_getter, chunk=None):
+        self.chunk = chunk           # the socket is in timeout mode (Node.connect_peer): a recv may return fewer bytes than asked
         self.stream = stream
         self.off = 0
         self.sent = []
@@ -77,7 +78,7 @@ class PeerSock:
             self.idle += 1
             self.thread_getter().exit_event.set()
             raise TimeoutError("idle")
-        d = self.stream[self.off:self.off + k]
+        d = self.stream[self.off:self.off + (k if self.chunk is None else min(k, self.chunk))]
         self.off += len(d)
         return d
 
@@ -119,7 +120,7 @@ def _globals_key(p2p):
     return tuple(repr(getattr(p2p, k, None)) for k in _GN)
 
 
-def build(seed, script):
+def build(seed, script, chunk=None):
     """script: list (per peer) of list of message names -> (node, socks, expectations)"""
     p2p = _p2p()
     p2p.MAGIC_START_BYTES = MAGIC
@@ -129,7 +130,7 @@ def build(seed, script):
     for peer, names in enumerate(script):
         msgs = [message(seed, nm, peer, i) for i, nm in enumerate(names)]
         stream = b"".join(R.frame(MAGIC, c, p) for c, p in msgs)
-        sock = PeerSock(stream, lambda peer=peer: node._peer_threads[peer])
+        sock = PeerSock(stream, lambda peer=peer: node._peer_threads[peer], chunk)
         sock.msgs = msgs
         socks.append(sock)
         node._peer_sockets[peer] = sock
@@ -163,8 +164,8 @@ def expected(seed, script):
     return exp
 
 
-def execute(ctx, seed, script, want, opcodes=None, horizon=40000):
-    node, socks = build(seed, script)
+def execute(ctx, seed, script, want, opcodes=None, horizon=40000, chunk=None):
+    node, socks = build(seed, script, chunk)
     p2p = _p2p()
 
     def state_fn(s):
@@ -244,7 +245,7 @@ def judge(seed, script, obs):
 def chk_schedule(case):
     want = WANT[case.get("scope")]
     opc = _opc_recv_loop if case.get("opcodes") else None
-    ex = Explorer(lambda ctx: execute(ctx, case["seed"], case["script"], want, opc), cache=False)
+    ex = Explorer(lambda ctx: execute(ctx, case["seed"], case["script"], want, opc, chunk=case.get("chunk")), cache=False)
     ctx, obs = ex.one(case["choices"])
     return judge(case["seed"], case["script"], obs)
 
@@ -280,6 +281,10 @@ def jobs(tier, seed):
     sc = "mid" if tier == "quick" else "all"
     for a, b in pairs:
         js.append({"name": f"2x2-{sc}/{'+'.join(a)}|{'+'.join(b)}", "script": [a, b], "scope": sc, "weight": 12})
+    # fragmented delivery (the peer sockets are in timeout mode: a recv() returns at most 11 / 5 bytes) combined with every interleaving
+    for a, b in ([("ping", "inv"), ("version", "unknown")] if tier == "quick" else list(itertools.product(core, repeat=2))):
+        for ch in ((11,) if tier == "quick" else (11, 5)):
+            js.append({"name": f"2x1-mid-frag{ch}/{a}|{b}", "script": [[a], [b]], "scope": "mid", "chunk": ch, "weight": 14})
     names3 = ["ping", "inv", "unknown"] if tier == "quick" else ["ping", "version", "inv", "unknown"]
     triples = list(itertools.product(names3, repeat=3))
     if tier == "quick":
@@ -315,7 +320,7 @@ def run_job(job):
     cap = 60_000 if job["tier"] == "quick" else 3_000_000
 
     def mk():
-        return Explorer(lambda ctx: execute(ctx, seed, script, want, opc), bound=job.get("bound"),
+        return Explorer(lambda ctx: execute(ctx, seed, script, want, opc, chunk=job.get("chunk")), bound=job.get("bound"),
                         cache=not job.get("nocache"), order="dfs", max_exec=cap)
     if opc:
         # CPython 3.12 instruments a code object for opcode events lazily, the first time a frame of it sets
@@ -336,6 +341,8 @@ def run_job(job):
                 case["scope"] = job["scope"]
             if job.get("opcodes"):
                 case["opcodes"] = True
+            if job.get("chunk"):
+                case["chunk"] = job["chunk"]
             acc.violation("schedule", case, key, desc + f" [schedule of {len(ctx.choices)} points, "
                           f"{sum(1 for c in ctx.choices if c)} non-default choices]")
     ex.check = check
